@@ -201,7 +201,7 @@ def make_installed_site(root):
     """<root>/site/athlib = the package with the schemas inside it (json/ copied to athlib/json-schemas, as `setup.py sdist`
     does); nothing else of the repository is beside it."""
     import shutil
-    site = os.path.join(root, 'site')
+    site = os.path.join(root, 'my site \u00e9#1')          # a path that needs URL quoting (blank, accent, hash)
     shutil.copytree(os.path.join(REPO, 'athlib'), os.path.join(site, 'athlib'), ignore=shutil.ignore_patterns('__pycache__', 'json-schemas'))
     shutil.copytree(os.path.join(REPO, 'json'), os.path.join(site, 'athlib', 'json-schemas'))
     return site
